@@ -101,6 +101,21 @@ class DynamicSGEDecider(SynthesisDecider):
             )
 
 
+class GenotypeBackedSource(RandomSource):
+    """The random source handed to metahandlers during a mapping: every draw is a decision read
+    from the genotype, so that refined values are part of the individual, too."""
+
+    def __init__(self, decider: DynamicSGEDecider):
+        self.decider = decider
+
+    def randint(self, min: int, max: int) -> int:
+        return self.decider.random_int(min, max)
+
+    def random_float(self, min: float, max: float) -> float:
+        v = self.decider.read(float)
+        return (v / MAX_GENE_VALUE) * (max - min) + min
+
+
 class DynamicStructuredGrammaticalEvolutionRepresentation(
     Representation[Genotype, TreeNode],
     RepresentationWithMutation[Genotype],
@@ -128,7 +143,7 @@ class DynamicStructuredGrammaticalEvolutionRepresentation(
 
     def genotype_to_phenotype(self, genotype: Genotype) -> TreeNode:
         decider = DynamicSGEDecider(genotype, self.grammar, self.max_depth)
-        return random_tree(genotype.random, self.grammar, decider)
+        return random_tree(GenotypeBackedSource(decider), self.grammar, decider)
 
     def mutate(self, random: RandomSource, genotype: Genotype, **kwargs) -> Genotype:
         dna = deepcopy(genotype.dna)
